@@ -540,6 +540,41 @@ impl Prop for C18Prop {
             ],
             vec!["fixed"],
         ));
+        // sizes around the usual buffer sizes (binary and text), read back in full
+        for n in [4096usize, 65536, 65537, 70000, 200001] {
+            let bytes: Vec<u8> = (0..n).map(|i| (i * 7 + i / 251) as u8).collect();
+            let text: String = (0..n).map(|i| (b'a' + (i % 23) as u8) as char).collect();
+            out.push(case_of(
+                vec![
+                    format!("wb:{}:x{}", enc_str("big.bin"), hex(&bytes)),
+                    o1("rb", "big.bin"),
+                    o1("size", "big.bin"),
+                    o2("cp", "big.bin", "copy/of/big.bin"),
+                    o1("rb", "copy/of/big.bin"),
+                    w("big.txt", &text),
+                    o1("rt", "big.txt"),
+                    o1("size", "big.txt"),
+                ],
+                vec!["fixed", "large-content"],
+            ));
+        }
+        // a path longer than 255 characters made of short components
+        {
+            let deep: String = (0..40).map(|k| format!("dir{:02}", k)).collect::<Vec<_>>().join("/");
+            out.push(case_of(
+                vec![
+                    o1("touch", &format!("{}/t.txt", deep)),
+                    o1("ex", &format!("{}/t.txt", deep)),
+                    w(&format!("{}/w.txt", deep), "x"),
+                    o1("mkdir", &format!("{}/more/and/more", deep)),
+                    o1("isd", &format!("{}/more/and", deep)),
+                    o2("cp", &format!("{}/w.txt", deep), &format!("{}/more/c.txt", deep)),
+                    o1("rmr", "dir00"),
+                    o1("ex", "dir00"),
+                ],
+                vec!["fixed", "long-path"],
+            ));
+        }
         // wrong kinds: file where a directory is expected and vice versa
         out.push(case_of(
             vec![
